@@ -230,18 +230,31 @@ def run(ctx):
                 return None
             _Sccp(f, call_model=_cm(facts, inner, field_model=fm), field_model=fm).run([(0, {})])
             res[mode] = seen
-        if len(enc) >= 1 and res["Some"]["encoding"] and all(v is not None and v[0] == "v" and v[1] == "Some" for v in res["Some"]["encoding"]) \
-                and not res["Auto"]["encoding"] and not res["Disabled"]["encoding"]:
+        # what the searcher ends up with: the last value handed to the setter, or Config::default()'s when it is not called
+        d_enc, d_bom = W.struct_default(facts, SCFG, "encoding"), W.struct_default(facts, SCFG, "bom_sniffing")
+
+        def eff(mode, what):
+            vals = res[mode][what]
+            return vals[-1] if vals else (d_enc if what == "encoding" else d_bom)
+
+        def is_none(v):
+            return v is not None and v[0] == "v" and v[1] == "None"
+
+        def is_some(v):
+            return v is not None and v[0] == "v" and v[1] == "Some"
+        if d_enc is None or d_bom is None:
+            r.bad("auto", "anchor-missing: the defaults of searcher::Config (encoding, bom_sniffing) are not constants", fn=f)
+        if is_some(eff("Some", "encoding")) and is_none(eff("Auto", "encoding")) and is_none(eff("Disabled", "encoding")):
             r.ok("label", "EncodingMode::Some(enc) ⇒ encoding(Some(enc)), and only then", fn=f)
-        elif res["Some"]["encoding"] and not res["Auto"]["encoding"] and not res["Disabled"]["encoding"]:
+        elif res["Some"]["encoding"] and is_none(eff("Auto", "encoding")) and is_none(eff("Disabled", "encoding")):
             r.bad("label", "an explicit --encoding label is passed as `%s`" % (res["Some"]["encoding"],), fn=f, construct="label")
         else:
             r.bad("label", "SearcherBuilder::encoding is not called exactly under EncodingMode::Some", fn=f, construct="label")
-        if res["Disabled"]["bom_sniffing"] == [I(0)] and not res["Auto"]["bom_sniffing"] and not res["Some"]["bom_sniffing"]:
+        if eff("Disabled", "bom_sniffing") == I(0) and eff("Auto", "bom_sniffing") == I(1) and eff("Some", "bom_sniffing") == I(1):
             r.ok("none", "EncodingMode::Disabled ⇒ bom_sniffing(false), and only then", fn=f)
         else:
             r.bad("none", "--encoding none does not disable BOM sniffing (exactly under EncodingMode::Disabled)", fn=f, construct="none")
-        if res["Auto"]["encoding"] or res["Auto"]["bom_sniffing"]:
+        if not (is_none(eff("Auto", "encoding")) and eff("Auto", "bom_sniffing") == I(1)):
             r.bad("auto", "EncodingMode::Auto changes the searcher's encoding settings", fn=f)
         elif not (enc and bs):
             r.bad("auto", "anchor-missing: SearcherBuilder::encoding / bom_sniffing calls in HiArgs::searcher", fn=f)
